@@ -655,9 +655,13 @@ Section Lift.
       eapply Inv_quiet; [apply tokonly_quiet; eapply tok_burn_core_tokonly; exact E|exact HI].
     - destruct prog; try discriminate E. destruct ms as [|callee rest]; [discriminate E|].
       rg_inv E. eapply IH; [exact Hok|exact E|exact HI].
-    - destruct prog; try discriminate E. rg_inv E. rg_inv E.
-      eapply withdraw_sol_cpi_inv; [exact E|].
-      eapply Inv_quiet; [apply tokonly_quiet; eapply tok_transfer_checked_tokonly; eassumption|exact HI].
+    - destruct prog; try discriminate E. rg_inv E.
+      match type of E with (if ?b then _ else _) = Ok _ => destruct b end.
+      + rg_inv E.
+        eapply withdraw_sol_cpi_inv; [exact E|].
+        eapply Inv_quiet; [apply tokonly_quiet; eapply tok_transfer_checked_tokonly; eassumption|exact HI].
+      + revert E. destruct (nthk ms 8); intros E; try discriminate E. rg_inv E.
+        eapply withdraw_sol_cpi_inv; [exact E|exact HI].
     - destruct prog; injection E as <-; exact HI.
   Qed.
 
